@@ -1039,7 +1039,7 @@ func ruleFramesFinished(c *Check, p *Program, h *ssa.Function) {
 		arr := ia.X
 		// an invoke of Close on an element of (a slice of) the same array
 		closed := false
-		allInstrs(h, func(j ssa.Instruction) {
+		allInstrsDeep(h, func(j ssa.Instruction) {
 			ci, isC := j.(ssa.CallInstruction)
 			if !isC || !ci.Common().IsInvoke() || ci.Common().Method.Name() != "Close" {
 				return
@@ -1055,125 +1055,138 @@ func ruleFramesFinished(c *Check, p *Program, h *ssa.Function) {
 			closerStores[in] = true
 		}
 	})
-	in := map[*ssa.BasicBlock]int{}
-	work := []*ssa.BasicBlock{h.Blocks[0]}
-	in[h.Blocks[0]] = sIdle
-	type finding struct{ what string }
 	bad := map[ssa.Instruction]string{}
 	nCopy, nClose := 0, 0
 	seenEv := map[ssa.Instruction]bool{}
 	deferredClose := false
-	for len(work) > 0 {
-		b := work[len(work)-1]
-		work = work[:len(work)-1]
-		cur := in[b]
-		for _, i := range b.Instrs {
-			if closerStores[i] {
-				if !seenEv[i] {
-					seenEv[i] = true
-					nClose++
+	var run func(h *ssa.Function, entry int, top bool, depth int) int
+	run = func(h *ssa.Function, entry int, top bool, depth int) int {
+		exit := 0
+		in := map[*ssa.BasicBlock]int{}
+		work := []*ssa.BasicBlock{h.Blocks[0]}
+		in[h.Blocks[0]] = entry
+		for len(work) > 0 {
+			b := work[len(work)-1]
+			work = work[:len(work)-1]
+			cur := in[b]
+			for _, i := range b.Instrs {
+				if closerStores[i] {
+					if !seenEv[i] {
+						seenEv[i] = true
+						nClose++
+					}
+					cur = sIdle
+					continue
 				}
-				cur = sIdle
-				continue
-			}
-			if _, isRD := i.(*ssa.RunDefers); isRD && deferredClose {
-				cur = sIdle
-				continue
-			}
-			if r, isR := i.(*ssa.Return); isR {
-				if cur&sOpen != 0 && len(r.Results) > 0 {
-					e := r.Results[len(r.Results)-1]
-					// with defer statements in the function the results travel through result cells
-					if ld, isL := e.(*ssa.UnOp); isL && ld.Op == token.MUL {
-						if _, isAl := ld.X.(*ssa.Alloc); isAl {
-							for _, j := range b.Instrs {
-								if st, isS := j.(*ssa.Store); isS && st.Addr == ld.X {
-									e = st.Val
+				if _, isRD := i.(*ssa.RunDefers); isRD && deferredClose {
+					cur = sIdle
+					continue
+				}
+				if r, isR := i.(*ssa.Return); isR {
+					exit |= cur
+					if top && cur&sOpen != 0 && len(r.Results) > 0 {
+						e := r.Results[len(r.Results)-1]
+						// with defer statements in the function the results travel through result cells
+						if ld, isL := e.(*ssa.UnOp); isL && ld.Op == token.MUL {
+							if _, isAl := ld.X.(*ssa.Alloc); isAl {
+								for _, j := range b.Instrs {
+									if st, isS := j.(*ssa.Store); isS && st.Addr == ld.X {
+										e = st.Val
+									}
 								}
 							}
 						}
-					}
-					if call, isCall := e.(*ssa.Call); isCall && isLz4(staticCallee(call), "Writer.Close") {
-						continue
-					}
-					if isErrorType(e.Type()) && mayBeNilErr(e, b) {
-						definitelyFailed := false
-						for _, a := range atomsOfBlock(b) {
-							if a.Kind == "errnil" && !a.Val && a.V == e {
-								definitelyFailed = true
-							}
+						if call, isCall := e.(*ssa.Call); isCall && isLz4(staticCallee(call), "Writer.Close") {
+							continue
 						}
-						if !definitelyFailed {
-							bad[i] = "the handler can return without an error while the frame written by io.Copy has not been closed: no end mark and no content checksum reach the output"
-						}
-					}
-				}
-				continue
-			}
-			ci, ok := i.(ssa.CallInstruction)
-			if !ok {
-				continue
-			}
-			f := staticCallee(ci)
-			switch {
-			case isLz4(f, "NewWriter"):
-				cur = sIdle
-			case isLz4(f, "Writer.Reset"):
-				if cur&sOpen != 0 {
-					bad[i] = "the Writer is pointed at the next output while the previous frame may still be open: Reset discards it without writing the end mark (every output file but the last is truncated)"
-				}
-				cur = sIdle
-			case isLz4(f, "Writer.Close"):
-				if _, isDefer := i.(*ssa.Defer); isDefer {
-					// runs when the handler returns, not here
-					if i.Block() == h.Blocks[0] || i.Block().Dominates(i.Block()) {
-						// only a registration outside any loop finishes the one frame of the run
-						inLoop := false
-						seen := map[*ssa.BasicBlock]bool{}
-						var dfs func(x *ssa.BasicBlock)
-						dfs = func(x *ssa.BasicBlock) {
-							if seen[x] {
-								return
-							}
-							seen[x] = true
-							for _, s := range x.Succs {
-								if s == i.Block() {
-									inLoop = true
+						if isErrorType(e.Type()) && mayBeNilErr(e, b) {
+							definitelyFailed := false
+							for _, a := range atomsOfBlock(b) {
+								if a.Kind == "errnil" && !a.Val && a.V == e {
+									definitelyFailed = true
 								}
-								dfs(s)
 							}
-						}
-						dfs(i.Block())
-						if !inLoop {
-							deferredClose = true
+							if !definitelyFailed {
+								bad[i] = "the handler can return without an error while the frame written by io.Copy has not been closed: no end mark and no content checksum reach the output"
+							}
 						}
 					}
 					continue
 				}
-				if !seenEv[i] {
-					seenEv[i] = true
-					nClose++
+				ci, ok := i.(ssa.CallInstruction)
+				if !ok {
+					continue
 				}
-				cur = sIdle
-			case calleeIs(ci, "io", "Copy"):
-				if len(ci.Common().Args) > 0 {
-					if mi, isMI := ci.Common().Args[0].(*ssa.MakeInterface); isMI && isWriterVal(mi.X) {
-						if !seenEv[i] {
-							seenEv[i] = true
-							nCopy++
+				f := staticCallee(ci)
+				switch {
+				case isLz4(f, "NewWriter"):
+					cur = sIdle
+				case isLz4(f, "Writer.Reset"):
+					if cur&sOpen != 0 {
+						bad[i] = "the Writer is pointed at the next output while the previous frame may still be open: Reset discards it without writing the end mark (every output file but the last is truncated)"
+					}
+					cur = sIdle
+				case isLz4(f, "Writer.Close"):
+					if _, isDefer := i.(*ssa.Defer); isDefer {
+						// runs when the handler returns, not here
+						if i.Block() == h.Blocks[0] || i.Block().Dominates(i.Block()) {
+							// only a registration outside any loop finishes the one frame of the run
+							inLoop := false
+							seen := map[*ssa.BasicBlock]bool{}
+							var dfs func(x *ssa.BasicBlock)
+							dfs = func(x *ssa.BasicBlock) {
+								if seen[x] {
+									return
+								}
+								seen[x] = true
+								for _, s := range x.Succs {
+									if s == i.Block() {
+										inLoop = true
+									}
+									dfs(s)
+								}
+							}
+							dfs(i.Block())
+							if !inLoop {
+								deferredClose = true
+							}
 						}
-						cur = sOpen
+						continue
+					}
+					if !seenEv[i] {
+						seenEv[i] = true
+						nClose++
+					}
+					cur = sIdle
+				case calleeIs(ci, "io", "Copy"):
+					if len(ci.Common().Args) > 0 {
+						if mi, isMI := ci.Common().Args[0].(*ssa.MakeInterface); isMI && isWriterVal(mi.X) {
+							if !seenEv[i] {
+								seenEv[i] = true
+								nCopy++
+							}
+							cur = sOpen
+						}
+					}
+				default:
+					// a helper of the command: its effect on the Writer is that of its body
+					if _, isCall := i.(*ssa.Call); isCall && f != nil && f.Pkg == h.Pkg && len(f.Blocks) > 0 && depth > 0 && f != h {
+						if out := run(f, cur, false, depth-1); out != 0 {
+							cur = out
+						}
 					}
 				}
 			}
-		}
-		for _, s := range b.Succs {
-			if in[s]|cur != in[s] {
-				in[s] |= cur
-				work = append(work, s)
+			for _, s := range b.Succs {
+				if in[s]|cur != in[s] {
+					in[s] |= cur
+					work = append(work, s)
+				}
 			}
 		}
+		return exit
 	}
+	run(h, sIdle, true, 2)
 	if nCopy == 0 {
 		c.Fail("R20.12", "lz4c.compress#frames-finished", p.Pos(h.Pos()), "the copies into the shared Writer are resolved", "no io.Copy into the Writer found in the compress handler (anchor unresolved)")
 		return
